@@ -407,6 +407,7 @@ def _replay_layout(lines: List[Line], lay: Dict[str, int], one_line: bool, first
 # --------------------------------------------------------------------------- (b) cited lines, real lexer, enumerated layouts
 
 BAD = """{lead}proto p
+const NOTE = "first\\nsecond\\nthird\\t\\"q\\" \\\\"
 {gap}// leading comment
 type bad_alias = uint3
 {gap}const badConst = 1
@@ -423,6 +424,7 @@ message bad_msg {{
 }}
 """
 GOOD = """{lead}proto good
+const NOTE = "first\\nsecond\\nthird\\t\\"q\\" \\\\"
 {gap}// A style-guide conforming schema.
 type Stamp = int64
 {gap}const LIMIT = 2
